@@ -5,6 +5,7 @@
 -/
 import HealSparse.Lemmas.SameWorld
 import HealSparse.Lemmas.ApiScalar
+import HealSparse.Lemmas.ApiBool
 import HealSparse.Props.C12
 namespace HS
 
@@ -757,5 +758,460 @@ theorem same_opAstype (h : w₁.SameW w₂) (g₁ : w₁.Good) (g₂ : w₂.Good
     · rw [x1, x2]; exact ⟨rfl, h.bind _ hr⟩
     · rw [x1, x2]; exact SimR.same h _
   · exact SimR.same h _
+
+/-! ### sub-maps, resolution -/
+
+theorem same_opScov (h : w₁.SameW w₂) (g₁ : w₁.Good) (g₂ : w₂.Good) (a : Args) :
+    SimR (opScov w₁ a) (opScov w₂ a) := by
+  unfold opScov
+  refine sim_withMap h g₁ g₂ fun n m₁ m₂ hn e1 e2 hc ok1 ok2 => ?_
+  split
+  · exact SimR.same h _
+  · rename_i k _
+    have hce := hc.c_eq
+    by_cases hk : k ≥ m₁.c.ncov
+    · rw [if_pos hk, if_pos (by rw [hce]; exact hk)]
+      exact SimR.same h _
+    · rw [if_neg hk, if_neg (by rw [hce]; exact hk)]
+      have hk' : k < m₁.c.ncov := Nat.lt_of_not_le hk
+      obtain ⟨i1, a1, c1⟩ := singleCovpixMap_spec' m₁.c m₁.vc m₁.st k hc.same.1 hk'
+      obtain ⟨i2, a2, c2⟩ := singleCovpixMap_spec' m₁.c m₁.vc m₂.st k hc.same.2.1 hk'
+      have hr : StSame m₁ (singleCovpixMap m₁.c m₁.vc m₁.st k) (singleCovpixMap m₂.c m₂.vc m₂.st k) := by
+        rw [hc.c_eq, hc.vc_eq]
+        refine ⟨i1, i2, fun p hp => ?_, fun j hj => ?_⟩
+        · rw [a1 p hp, a2 p hp, hc.same.2.2.1 p hp]
+        · rw [c1 j hj, c2 j hj, hc.same.2.2.2 k hk']
+      exact ⟨rfl, h.bind _ (hc.with_st hr none)⟩
+
+theorem apiUpgrade_sameC {m₁ m₂ : MapObj} (hc : m₁.SameC m₂) (hw : m₁.WF) (ord : Nat) :
+    ExR MapObj.SameC (apiUpgrade m₁ ord) (apiUpgrade m₂ ord) := by
+  have hS := hc.same
+  rw [hc.eq_with_st] at hS ⊢
+  generalize m₂.st = s₂ at hS ⊢
+  unfold apiUpgrade
+  simp only [bind, Except.bind, pure, Except.pure, throw, throwThe, MonadExceptOf.throw]
+  split
+  · exact ExR.err _
+  · rename_i hlt
+    have hlt' : m₁.spord < ord := Nat.lt_of_not_le hlt
+    have key : C10.Same (cfgOf m₁.covord ord) m₁.vc (upgradeMap m₁.c m₁.vc m₁.st (2 * (ord - m₁.spord)))
+        (upgradeMap m₁.c m₁.vc s₂ (2 * (ord - m₁.spord))) := by
+      have := C10.same_upgrade m₁.c m₁.vc m₁.st s₂ (2 * (ord - m₁.spord)) hS
+      have hcfg : C15.upCfg m₁.c (2 * (ord - m₁.spord)) = cfgOf m₁.covord ord :=
+        ucfg_cfgOf hw.1 (Nat.le_of_lt hlt')
+      rw [hcfg] at this
+      exact this
+    split
+    · exact ExR.err _
+    · exact ExR.err _
+    · exact ⟨rfl, rfl, rfl, rfl, rfl, rfl, key⟩
+
+theorem same_opUpg (h : w₁.SameW w₂) (g₁ : w₁.Good) (g₂ : w₂.Good) (a : Args) :
+    SimR (opUpg w₁ a) (opUpg w₂ a) := by
+  unfold opUpg
+  refine sim_withMap h g₁ g₂ fun n m₁ m₂ hn e1 e2 hc ok1 ok2 => ?_
+  split
+  · exact SimR.same h _
+  · rename_i ord _
+    rcases (apiUpgrade_sameC hc ok1.1 ord).cases with ⟨r₁, r₂, x1, x2, hr⟩ | ⟨e, x1, x2⟩
+    · rw [x1, x2]; exact ⟨rfl, h.bind _ hr⟩
+    · rw [x1, x2]; exact SimR.same h _
+
+/-- the maps `fracdet` stores for content-equal sources are content-equal -/
+theorem fracdet_sameC {m₁ m₂ : MapObj} (hc : m₁.SameC m₂) (ok1 : m₁.Ok) (ord : Nat)
+    (hlo : m₁.covord ≤ ord) (hhi : ord ≤ m₁.spord) :
+    ({ covord := m₁.covord, spord := ord, kind := .plain (.flt 64), sent := .num 0 0,
+       st := fracdetState m₁ ord } : MapObj).SameC
+    { covord := m₂.covord, spord := ord, kind := .plain (.flt 64), sent := .num 0 0,
+       st := fracdetState m₂ ord } := by
+  have hS := hc.same
+  rw [hc.eq_with_st] at hS ⊢
+  generalize m₂.st = s₂ at hS ⊢
+  have hv := ok1.2.1.blankInvalid
+  have ok2 : ({ m₁ with st := s₂ } : MapObj).WF := ⟨ok1.1.1, hS.2.1⟩
+  have w1 := WF.fracdet_partial ok1.1 hv hlo hhi
+  have w2 := WF.fracdet_partial (m := { m₁ with st := s₂ }) ok2 hv hlo hhi
+  have hg : 2 * (m₁.spord - ord) ≤ m₁.c.shift := by
+    show _ ≤ 2 * (m₁.spord - m₁.covord)
+    omega
+  have hcf : fcfg m₁.c (2 * (m₁.spord - ord)) = cfgOf m₁.covord ord := degCfg_cfgOf hlo hhi
+  have i1 := hS.1.fracdet_inv' hv hg
+  have i2 := hS.2.1.fracdet_inv' hv hg
+  have q := (C10.same_queries m₁.c m₁.vc m₁.st s₂ hS hv).2.2.2.2 _ hg
+  refine ⟨rfl, rfl, rfl, rfl, rfl, rfl, w1.2, w2.2, ?_, ?_⟩
+  · intro p hp
+    have hp' : p < (fcfg m₁.c (2 * (m₁.spord - ord))).npix := by rw [hcf]; exact hp
+    show abs (cfgOf m₁.covord ord) _ (mapCells (fracdetCounts m₁.c m₁.vc m₁.st _) _) p
+      = abs (cfgOf m₁.covord ord) _ (mapCells (fracdetCounts m₁.c m₁.vc s₂ _) _) p
+    rw [← hcf, abs_mapCells _ fvc _ _ _ i1 p hp', abs_mapCells _ fvc _ _ _ i2 p hp']
+    have e : abs (fcfg m₁.c (2 * (m₁.spord - ord))) fvc (fracdetCounts m₁.c m₁.vc m₁.st _) p
+        = abs (fcfg m₁.c (2 * (m₁.spord - ord))) fvc (fracdetCounts m₁.c m₁.vc s₂ _) p := q p hp'
+    rw [e]
+  · intro k hk
+    show covered (cfgOf m₁.covord ord) (mapCells (fracdetCounts m₁.c m₁.vc m₁.st _) _) k
+      = covered (cfgOf m₁.covord ord) (mapCells (fracdetCounts m₁.c m₁.vc s₂ _) _) k
+    rw [mapCells_covered, mapCells_covered, ← hcf, hS.1.fracdet_covered' hk,
+      hS.2.1.fracdet_covered' hk]
+    exact hS.2.2.2 k hk
+
+theorem same_opFracdet (h : w₁.SameW w₂) (g₁ : w₁.Good) (g₂ : w₂.Good) (a : Args) :
+    SimR (opFracdet w₁ a) (opFracdet w₂ a) := by
+  unfold opFracdet
+  refine sim_withMap h g₁ g₂ fun n m₁ m₂ hn e1 e2 hc ok1 ok2 => ?_
+  split
+  · rename_i r ord _ _
+    by_cases hcond : (decide (ord > m₁.spord) || decide (ord < m₁.covord)) = true
+    · rw [if_pos hcond, if_pos (by rw [hc.spord_eq, hc.covord_eq]; exact hcond)]
+      exact SimR.same h _
+    · rw [if_neg hcond, if_neg (by rw [hc.spord_eq, hc.covord_eq]; exact hcond)]
+      have hlo : m₁.covord ≤ ord := by
+        simp only [Bool.or_eq_true, decide_eq_true_eq, not_or, Nat.not_lt] at hcond; omega
+      have hhi : ord ≤ m₁.spord := by
+        simp only [Bool.or_eq_true, decide_eq_true_eq, not_or, Nat.not_lt] at hcond; omega
+      exact ⟨rfl, h.bind _ (fracdet_sameC hc ok1 ord hlo hhi)⟩
+  · exact SimR.same h _
+
+/-! ### boolean algebra -/
+
+theorem stored_same {a₁ a₂ : MapObj} (hc : a₁.SameC a₂) {s₁ s₂ : State Val}
+    (w1 : (a₁.stored s₁).WF) (w2 : (a₂.stored s₂).WF)
+    (hcov : ∀ k, k < a₁.c.ncov → (a₁.stored s₁).covd k = (a₂.stored s₂).covd k)
+    (habs : ∀ p, p < a₁.npix → (a₁.stored s₁).abs p = (a₂.stored s₂).abs p) : StSame a₁ s₁ s₂ := by
+  refine ⟨w1.2, ?_, ?_, ?_⟩
+  · have := w2.2
+    have e1 : (a₂.stored s₂).c = a₁.c := hc.c_eq
+    have e2 : (a₂.stored s₂).vc = a₁.vc := hc.vc_eq
+    rw [e1, e2] at this
+    exact this
+  · intro p hp
+    have := habs p hp
+    unfold MapObj.abs at this
+    have e1 : (a₂.stored s₂).c = a₁.c := hc.c_eq
+    have e2 : (a₂.stored s₂).vc = a₁.vc := hc.vc_eq
+    rw [e1, e2] at this
+    exact this
+  · intro k hk
+    have := hcov k hk
+    unfold MapObj.covd at this
+    have e1 : (a₂.stored s₂).c = a₁.c := hc.c_eq
+    rw [e1] at this
+    exact this
+
+theorem MapObj.SameC.bval_eq {a b : MapObj} (h : a.SameC b) {p : Nat} (hp : p < a.npix) :
+    b.bval p = a.bval p := by
+  unfold MapObj.bval; rw [h.abs_eq hp]
+
+theorem MapObj.SameC.covd_eq {a b : MapObj} (h : a.SameC b) {k : Nat} (hk : k < a.c.ncov) :
+    b.covd k = a.covd k := h.covered_eq hk
+
+theorem apiInvert_sameC {a₁ a₂ : MapObj} (hc : a₁.SameC a₂) (ok1 : a₁.Ok) (ok2 : a₂.Ok) :
+    ExR (StSame a₁) (apiInvert a₁) (apiInvert a₂) := by
+  by_cases hk : a₁.kind.isBool = true
+  · have h1 : apiInvert a₁ = .ok (ofBoolState (invertMap a₁.c (toBoolState a₁.st))) := by
+      rw [ApiBool.apiInvert_eq, if_pos hk]
+    have h2 : apiInvert a₂ = .ok (ofBoolState (invertMap a₂.c (toBoolState a₂.st))) := by
+      rw [ApiBool.apiInvert_eq, hc.kind_eq, if_pos hk]
+    obtain ⟨w1, _, _, c1, b1⟩ := ApiBool.invert_spec ok1.1 ok1.2.1 h1
+    obtain ⟨w2, _, _, c2, b2⟩ := ApiBool.invert_spec ok2.1 ok2.2.1 h2
+    rw [h1, h2]
+    show StSame a₁ _ _
+    refine stored_same hc w1 w2 (fun k hk' => ?_) (fun p hp => ?_)
+    · rw [c1 k, c2 k, hc.covd_eq hk']
+    · rw [b1 p hp, b2 p (by rw [hc.npix_eq]; exact hp), hc.c_eq,
+        hc.covd_eq (covpix_lt a₁.c p hp), hc.bval_eq hp]
+  · rw [ApiBool.apiInvert_eq, ApiBool.apiInvert_eq, hc.kind_eq, if_neg hk, if_neg hk]
+    exact ExR.err _
+
+/-- right operands of a boolean operation in content-equal worlds -/
+def RhsSame : BoolRhs → BoolRhs → Prop
+  | .const k₁, .const k₂ => k₁ = k₂
+  | .map b₁, .map b₂ => b₁.SameC b₂ ∧ b₁.Ok ∧ b₂.Ok
+  | _, _ => False
+
+theorem apiBoolOp_sameC {a₁ a₂ : MapObj} (hc : a₁.SameC a₂) (ok1 : a₁.Ok) (ok2 : a₂.Ok)
+    {r₁ r₂ : BoolRhs} (hr : RhsSame r₁ r₂) (op : String) (ip : Bool) :
+    ExR (StSame a₁) (apiBoolOp a₁ op r₁ ip) (apiBoolOp a₂ op r₂ ip) := by
+  have hok : BoolOpOk a₂ r₂ ↔ BoolOpOk a₁ r₁ := by
+    cases r₁ with
+    | const k₁ =>
+      cases r₂ with
+      | const k₂ => unfold BoolOpOk BoolRhs.Admissible; rw [hc.kind_eq]
+      | map b => exact hr.elim
+    | map b₁ =>
+      cases r₂ with
+      | const k => exact hr.elim
+      | map b₂ =>
+        unfold BoolOpOk BoolRhs.Admissible
+        simp only []
+        rw [hc.kind_eq, hc.spord_eq, hc.covord_eq, hc.sent_eq, hr.1.kind_eq, hr.1.spord_eq,
+          hr.1.covord_eq, hr.1.sent_eq]
+  by_cases hb : BoolOpOk a₁ r₁
+  · have h1 : apiBoolOp a₁ op r₁ ip = .ok (boolOpSt a₁ op r₁ ip) := by
+      rw [ApiBool.apiBoolOp_eq, if_pos hb]
+    have h2 : apiBoolOp a₂ op r₂ ip = .ok (boolOpSt a₂ op r₂ ip) := by
+      rw [ApiBool.apiBoolOp_eq, if_pos (hok.2 hb)]
+    rw [h1, h2]
+    show StSame a₁ _ _
+    cases r₁ with
+    | const k₁ =>
+      cases r₂ with
+      | map b => exact hr.elim
+      | const k₂ =>
+        have hk : k₂ = k₁ := hr.symm
+        subst hk
+        obtain ⟨w1, _, _, c1, b1⟩ := ApiBool.const_spec ok1.1 ok1.2.1 h1
+        obtain ⟨w2, _, _, c2, b2⟩ := ApiBool.const_spec ok2.1 ok2.2.1 h2
+        refine stored_same hc w1 w2 (fun k hk' => ?_) (fun p hp => ?_)
+        · rw [c1 k, c2 k, hc.covd_eq hk']
+        · rw [b1 p hp, b2 p (by rw [hc.npix_eq]; exact hp), hc.c_eq,
+            hc.covd_eq (covpix_lt a₁.c p hp), hc.bval_eq hp]
+    | map b₁ =>
+      cases r₂ with
+      | const k => exact hr.elim
+      | map b₂ =>
+        obtain ⟨hbs, hb1, hb2⟩ := hr
+        obtain ⟨_, _, hcb, _⟩ := ApiBool.map_facts ok1.1 ok1.2.1 hb1.1 h1
+        obtain ⟨w1, _, _, c1, p1⟩ := ApiBool.map_spec ok1.1 ok1.2.1 hb1.1 h1
+        obtain ⟨w2, _, _, c2, p2⟩ := ApiBool.map_spec ok2.1 ok2.2.1 hb2.1 h2
+        have hbn : b₁.npix = a₁.npix := by unfold MapObj.npix; rw [hcb]
+        refine stored_same hc w1 w2 (fun k hk' => ?_) (fun p hp => ?_)
+        · rw [c1 k hk', c2 k (by rw [hc.c_eq]; exact hk'), hc.covd_eq hk',
+            hbs.covd_eq (by rw [hcb]; exact hk')]
+        · have hkp := covpix_lt a₁.c p hp
+          rw [p1 p hp, p2 p (by rw [hc.npix_eq]; exact hp), hc.c_eq, hc.bval_eq hp,
+            hbs.bval_eq (by rw [hbn]; exact hp), hbs.covd_eq (by rw [hcb]; exact hkp)]
+  · have h1 : apiBoolOp a₁ op r₁ ip = .error .notImpl := by
+      rw [ApiBool.apiBoolOp_eq, if_neg hb]
+    have h2 : apiBoolOp a₂ op r₂ ip = .error .notImpl := by
+      rw [ApiBool.apiBoolOp_eq, if_neg (fun h => hb (hok.1 h))]
+    rw [h1, h2]
+    exact ExR.err _
+
+theorem same_opInv (h : w₁.SameW w₂) (g₁ : w₁.Good) (g₂ : w₂.Good) (a : Args)
+    (hnv : a.flag "inplace" = true → NoViewTarget w₁ a) : SimR (opInv w₁ a) (opInv w₂ a) := by
+  unfold opInv
+  refine sim_withMap h g₁ g₂ fun n m₁ m₂ hn e1 e2 hc ok1 ok2 => ?_
+  simp only [hn]
+  rcases (apiInvert_sameC hc ok1 ok2).cases with ⟨r₁, r₂, x1, x2, hr⟩ | ⟨e, x1, x2⟩
+  · rw [x1, x2]
+    cases hin : a.flag "inplace"
+    · simp only [Bool.false_eq_true, if_false]; st_leaf
+    · have hv : m₁.view = none := hnv hin m₁ (by rw [hn]; exact e1)
+      simp only [if_true]; st_leaf
+  · rw [x1, x2]; st_leaf
+
+/-- the tail of `opBop` once the right operands are known to be related -/
+theorem bop_tail (h : w₁.SameW w₂) {m₁ m₂ : MapObj} (hc : m₁.SameC m₂) (ok1 : m₁.Ok) (ok2 : m₂.Ok)
+    {r₁ r₂ : BoolRhs} (hr : RhsSame r₁ r₂) (n op rn : String) (ip : Bool)
+    (hv : ip = true → m₁.view = none) :
+    SimR (match apiBoolOp m₁ op r₁ ip with
+        | .ok st =>
+          if ip then (w₁.put n { m₁ with st := st, cache := none }, "ok")
+          else (w₁.bind rn { m₁ with st := st, cache := none }, "ok")
+        | .error e => ((if ip && m₁.kind.isBool then w₁.put n { m₁ with cache := none } else w₁), errLine e))
+      (match apiBoolOp m₂ op r₂ ip with
+        | .ok st =>
+          if ip then (w₂.put n { m₂ with st := st, cache := none }, "ok")
+          else (w₂.bind rn { m₂ with st := st, cache := none }, "ok")
+        | .error e => ((if ip && m₂.kind.isBool then w₂.put n { m₂ with cache := none } else w₂), errLine e)) := by
+  rcases (apiBoolOp_sameC hc ok1 ok2 hr op ip).cases with ⟨s₁, s₂, x1, x2, hr⟩ | ⟨e, x1, x2⟩
+  · rw [x1, x2]
+    cases ip with
+    | false => simp only [Bool.false_eq_true, if_false]; st_leaf
+    | true =>
+      have hv := hv rfl
+      simp only [if_true]; st_leaf
+  · rw [x1, x2, hc.kind_eq]
+    cases ip with
+    | false => simp only [Bool.false_and, Bool.false_eq_true, if_false]; st_leaf
+    | true =>
+      have hv := hv rfl
+      simp only [Bool.true_and]
+      split <;> st_leaf
+
+/-- the right operand `opBop` parses -/
+def bopRhs (w : World) (a : Args) : Option BoolRhs :=
+  match a.get? "const", a.get? "rhs" with
+  | some "T", _ => some (.const true)
+  | some "F", _ => some (.const false)
+  | _, some r => (w.get? r).map .map
+  | _, _ => none
+
+theorem opBop_eq (w : World) (a : Args) :
+    opBop w a = withMap w a fun m =>
+      match bopRhs w a with
+      | none => (w, "bad-op:rhs")
+      | some rhs =>
+        match apiBoolOp m (a.getD "op" "and") rhs (a.flag "inplace") with
+        | .ok st =>
+          if a.flag "inplace" then (w.put (a.pos.headD "") { m with st := st, cache := none }, "ok")
+          else (w.bind (a.getD "r" "tmp") { m with st := st, cache := none }, "ok")
+        | .error e => ((if a.flag "inplace" && m.kind.isBool then w.put (a.pos.headD "") { m with cache := none } else w), errLine e) := rfl
+
+theorem bopRhs_same (h : w₁.SameW w₂) (g₁ : w₁.Good) (g₂ : w₂.Good) (a : Args) :
+    (bopRhs w₁ a = none ∧ bopRhs w₂ a = none) ∨
+    ∃ r₁ r₂, bopRhs w₁ a = some r₁ ∧ bopRhs w₂ a = some r₂ ∧ RhsSame r₁ r₂ := by
+  unfold bopRhs
+  split
+  · exact .inr ⟨_, _, rfl, rfl, rfl⟩
+  · exact .inr ⟨_, _, rfl, rfl, rfl⟩
+  · rename_i r _ _ _
+    rcases h.get g₁ g₂ r with ⟨q1, q2⟩ | ⟨b₁, b₂, q1, q2, hb⟩
+    · rw [q1, q2]; exact .inl ⟨rfl, rfl⟩
+    · rw [q1, q2]
+      exact .inr ⟨_, _, rfl, rfl, hb, g₁.get q1, g₂.get q2⟩
+  · exact .inl ⟨rfl, rfl⟩
+
+theorem same_opBop (h : w₁.SameW w₂) (g₁ : w₁.Good) (g₂ : w₂.Good) (a : Args)
+    (hnv : a.flag "inplace" = true → NoViewTarget w₁ a) : SimR (opBop w₁ a) (opBop w₂ a) := by
+  rw [opBop_eq, opBop_eq]
+  refine sim_withMap h g₁ g₂ fun n m₁ m₂ hn e1 e2 hc ok1 ok2 => ?_
+  have hv : a.flag "inplace" = true → m₁.view = none :=
+    fun hin => hnv hin m₁ (by rw [hn]; exact e1)
+  rcases bopRhs_same h g₁ g₂ a with ⟨q1, q2⟩ | ⟨r₁, r₂, q1, q2, hr⟩
+  · rw [q1, q2]; exact SimR.same h _
+  · rw [q1, q2]
+    exact bop_tail h hc ok1 ok2 hr _ _ _ _ hv
+
+/-! ### record maps: `get_single` -/
+
+theorem apiGetSingleCopy_sameC {m₁ m₂ : MapObj} (hc : m₁.SameC m₂) (hv : m₁.BlankInvalid) (i : Nat)
+    (sent : Option Val) :
+    ExR MapObj.SameC (apiGetSingleCopy m₁ i sent) (apiGetSingleCopy m₂ i sent) := by
+  have hS := hc.same
+  rw [hc.eq_with_st] at hS ⊢
+  generalize m₂.st = s₂ at hS ⊢
+  unfold apiGetSingleCopy
+  simp only [bind, Except.bind, pure, Except.pure]
+  rw [show singleSentinel ({ m₁ with st := s₂ } : MapObj) i sent = singleSentinel m₁ i sent from rfl]
+  cases singleSentinel m₁ i sent with
+  | error e => exact ExR.err _
+  | ok ds =>
+    obtain ⟨dt, s⟩ := ds
+    exact ⟨rfl, rfl, rfl, rfl, rfl, rfl,
+      C10.same_astype m₁.c m₁.vc ⟨(Kind.plain dt).blank s, (Kind.plain dt).valid s⟩ _ _ _ hS hv⟩
+
+theorem same_opSingle (h : w₁.SameW w₂) (g₁ : w₁.Good) (g₂ : w₂.Good) (a : Args) :
+    SimR (opSingle w₁ a) (opSingle w₂ a) := by
+  unfold opSingle
+  refine sim_withMap h g₁ g₂ fun n m₁ m₂ hn e1 e2 hc ok1 ok2 => ?_
+  have he := hc.eq_with_st
+  generalize m₂.st = s₂ at he
+  subst he
+  have hss : ∀ sent i, singleSentinel ({ m₁ with st := s₂ } : MapObj) i sent = singleSentinel m₁ i sent :=
+    fun _ _ => rfl
+  simp only [hss]
+  split
+  · rename_i i sent _ _
+    rcases (apiGetSingleCopy_sameC hc ok1.2.1.blankInvalid i sent).cases with
+      ⟨r₁, r₂, x1, x2, hr⟩ | ⟨e, x1, x2⟩ <;>
+    rw [x1, x2] <;>
+    cases singleSentinel m₁ i sent <;>
+    walk <;>
+    first
+      | exact SimR.same h _
+      | exact ⟨rfl, h.bind _ hr⟩
+      | exact ⟨rfl, h.register _ (Option.some_ne_none _)⟩
+  · exact SimR.same h _
+
+/-! ### a test over ALL storage cells -/
+
+theorem sp_all_same {c : Cfg} {vc : VCfg Val} {s₁ s₂ : State Val} (hS : C10.Same c vc s₁ s₂)
+    (P : Val → Bool) : s₁.sp.all P = s₂.sp.all P := by
+  rw [Bool.eq_iff_iff, hS.1.sp_all_iff, hS.2.1.sp_all_iff]
+  constructor
+  · rintro ⟨a, b⟩; exact ⟨a, fun p hp => by rw [← hS.2.2.1 p hp]; exact b p hp⟩
+  · rintro ⟨a, b⟩; exact ⟨a, fun p hp => by rw [hS.2.2.1 p hp]; exact b p hp⟩
+
+/-! ### construction routes: two scalar `replace` updates of disjoint pixel sets commute -/
+
+theorem denseFold_replace (A : List Nat) (v : Val) (p : Nat) (x : Val) :
+    denseFold (stageOp id (fun (_ : Val) (w : Val) => w)) (stageList false (A.map (·, v))) p x
+      = if p ∈ A then v else x := by
+  unfold denseFold stageList
+  simp only [Bool.false_eq_true, if_false, List.nil_append, List.map_map]
+  induction A generalizing x with
+  | nil => simp
+  | cons q qs ih =>
+    simp only [List.map_cons, List.foldl_cons, List.mem_cons, Function.comp]
+    rw [ih]
+    by_cases hq : q = p
+    · subst hq; simp [stageOp]
+    · have : ¬ p = q := fun h => hq h.symm
+      simp [hq, this]
+
+/-- **what a successful scalar `replace` did**, through the observers -/
+theorem replace_scalar_spec {m m' : MapObj} {A : List Nat} {v : Val} (hw : m.WF)
+    (h : apiUpdate m "replace" A (some [v]) true = .ok m') :
+    m'.Same m ∧ m'.cache = none ∧ m'.WF ∧
+    (∀ p, p < m.npix → m'.abs p = if p ∈ A then v else m.abs p) ∧
+    (∀ k, k < m.c.ncov →
+      covered m'.c m'.st k = (covered m.c m.st k || A.any fun q => q >>> m.c.shift == k)) := by
+  obtain ⟨_, hlt, rfl⟩ := ApiRanges.apiUpdate_ok h
+  have hpv : ∀ qw ∈ ApiRanges.updPv m A (some [v]) true, qw.1 < m.c.npix :=
+    fun qw hq => hlt _ (ApiRanges.updPv_fst_mem hq)
+  have hop : cellOp m "replace" = (none, fun _ w => w) := rfl
+  have hpvA : ApiRanges.updPv m A (some [v]) true = A.map (·, v) := rfl
+  refine ⟨⟨rfl, rfl, rfl, rfl, rfl⟩, rfl, ⟨hw.1, ?_⟩, ?_, ?_⟩
+  · exact ApiRanges.inv_updatePix m.c m.vc m.st _ _ _ _ hw.2 hpv
+  · intro p hp
+    show abs m.c m.vc (ApiRanges.updSt m "replace" A (some [v]) true) p = _
+    unfold ApiRanges.updSt
+    rw [ApiRanges.updatePix_refines m.c m.vc m.st _ _ _ _ hw.2 hpv p hp, hop, hpvA]
+    unfold denseUpdate
+    simp only [Option.isNone_some, Bool.false_and, Bool.false_eq_true, if_false, Option.getD_none,
+      Option.isSome_none]
+    exact denseFold_replace A v p _
+  · intro k hk
+    show covered m.c (ApiRanges.updSt m "replace" A (some [v]) true) k = _
+    unfold ApiRanges.updSt
+    rw [ApiRanges.updatePix_covered m.c m.vc m.st _ _ _ _ hw.2 hpv k hk, hpvA]
+    simp only [Option.isNone_some, Bool.not_false, Bool.true_and, List.any_map]
+    rfl
+
+/-- **two routes to the same content**: writing the pixels `A` then the disjoint pixels `B`, or
+    `B` then `A` (scalar `replace`), gives content-equal maps — the block order differs when both
+    calls allocate new coverage pixels -/
+theorem replace_commute {m m₁ m₁₂ m₂ m₂₁ : MapObj} {A B : List Nat} {va vb : Val} (hw : m.WF)
+    (hdis : ∀ p, p ∈ A → p ∈ B → False)
+    (h1 : apiUpdate m "replace" A (some [va]) true = .ok m₁)
+    (h12 : apiUpdate m₁ "replace" B (some [vb]) true = .ok m₁₂)
+    (h2 : apiUpdate m "replace" B (some [vb]) true = .ok m₂)
+    (h21 : apiUpdate m₂ "replace" A (some [va]) true = .ok m₂₁) : m₁₂.SameC m₂₁ := by
+  obtain ⟨s1, c1, w1, a1, k1⟩ := replace_scalar_spec hw h1
+  obtain ⟨s12, c12, w12, a12, k12⟩ := replace_scalar_spec w1 h12
+  obtain ⟨s2, c2, w2, a2, k2⟩ := replace_scalar_spec hw h2
+  obtain ⟨s21, c21, w21, a21, k21⟩ := replace_scalar_spec w2 h21
+  have e1 : m₁₂.Same m := s12.trans s1
+  have e2 : m₂₁.Same m := s21.trans s2
+  have n1 : m₁.npix = m.npix := by unfold MapObj.npix; rw [s1.c_eq]
+  have n2 : m₂.npix = m.npix := by unfold MapObj.npix; rw [s2.c_eq]
+  refine ⟨e1.1.trans e2.1.symm, e1.2.1.trans e2.2.1.symm, e1.2.2.1.trans e2.2.2.1.symm,
+    e1.2.2.2.1.trans e2.2.2.2.1.symm, c12.trans c21.symm, e1.2.2.2.2.trans e2.2.2.2.2.symm,
+    w12.2, ?_, ?_, ?_⟩
+  · have := w21.2
+    rw [e2.c_eq, e2.vc_eq, ← e1.c_eq, ← e1.vc_eq] at this
+    exact this
+  · intro p hp
+    have hp' : p < m.npix := by
+      have : m₁₂.npix = m.npix := by unfold MapObj.npix; rw [e1.c_eq]
+      rw [← this]; exact hp
+    have l := a12 p (by rw [n1]; exact hp')
+    have r := a21 p (by rw [n2]; exact hp')
+    unfold MapObj.abs at l r
+    rw [e2.c_eq, e2.vc_eq, ← e1.c_eq, ← e1.vc_eq] at r
+    rw [l, r]
+    show (if p ∈ B then vb else m₁.abs p) = if p ∈ A then va else m₂.abs p
+    rw [a1 p hp', a2 p hp']
+    by_cases hA : p ∈ A <;> by_cases hB : p ∈ B <;> simp [hA, hB]
+    exact (hdis p hA hB).elim
+  · intro k hk
+    have hk' : k < m.c.ncov := by rw [← e1.c_eq]; exact hk
+    have l := k12 k (by rw [s1.c_eq]; exact hk')
+    have r := k21 k (by rw [s2.c_eq]; exact hk')
+    rw [e2.c_eq, ← e1.c_eq] at r
+    rw [l, r, k1 k hk', k2 k hk', s1.c_eq, s2.c_eq]
+    cases covered m.c m.st k <;> cases (A.any fun q => q >>> m.c.shift == k) <;>
+      cases (B.any fun q => q >>> m.c.shift == k) <;> rfl
 
 end HS
